@@ -377,6 +377,9 @@ def replay(path):
     import tempfile
     import shutil
     rec = json.load(open(path))
+    if rec["case"].startswith("cls_"):
+        import classgen
+        _EXTRA.extend(classgen.cases(int(rec.get("seed", 0)), 2000))
     if rec["case"].startswith("rnd_"):
         _EXTRA.extend(random_cases(int(rec["case"].split("_")[1]), 150))
     case = [c for c in all_cases() if c.tag == rec["case"]]
@@ -516,7 +519,11 @@ def main(argv):
     scratch = argv[3]
     outpath = argv[4]
     rng = random.Random(seed)
-    if mode_prop == "C05":
+    if mode_prop == "C12":
+        import classgen
+        cases = classgen.cases(seed, 40 if tier == "quick" else 2000)
+        _EXTRA.extend(cases)
+    elif mode_prop == "C05":
         cases = nested_quant_cases()
         if tier == "quick":
             cases = [c for i, c in enumerate(cases) if (i + seed) % 6 == 0 or c.tag in ("nq_opt_1_2",) or c.tag.startswith("nqla_")]
@@ -543,7 +550,7 @@ def main(argv):
                                     detail="pattern rejected by the compiler: %s" % rej, leaves=0, queries=0, solver_s=0,
                                     shapes=0, outcomes=[]))
                 continue
-            modes = {"C01": ["C01", "C01n"], "C03": ["C03"], "C04": ["C04"], "C05": ["C05"], "C13": ["C13"]}[mode_prop]
+            modes = {"C01": ["C01", "C01n"], "C12": ["C01", "C01n"], "C03": ["C03"], "C04": ["C04"], "C05": ["C05"], "C13": ["C13"]}[mode_prop]
             if mode_prop in ("C01", "C16") and any(case.names):
                 # C16: group names reported in source order, aligned with the capture slots (compile-side fact)
                 for which in ("opt", "noopt"):
@@ -565,6 +572,8 @@ def main(argv):
                 r = run_mode(mode, case, progs, d, rng)
                 r["outcomes"] = sorted(r["outcomes"])
                 r["wall_s"] = round(time.time() - t1, 2)
+                if getattr(case, "kf", None):
+                    r["kf"] = case.kf
                 if r["result"] == "fail":
                     ok, desc = confirm_native(mode, case, r["cex"], d)
                     r["reproduced"] = ok
